@@ -9,7 +9,7 @@ Local Open Scope nat_scope.
 Definition q (n : Z) (d : positive) : cell := Some (Qmake n d).
 Definition m : cell := None.
 
-Record ivar := IVar { i_name : nat; i_int : bool; i_dims : list nat; i_shape : list nat; i_cells : list cell }.
+Record ivar := IVar { i_name : nat; i_dims : list nat; i_shape : list nat; i_cells : list cell }.
 Inductive obs :=
 | ORaise (e : err)
 | OFile (dims : list (nat * nat)) (vars : list (list nat * list cell)).
@@ -22,7 +22,7 @@ Record case_t := Case {
 }.
 
 Definition to_var (v : ivar) : var :=
-  Var (i_name v) (i_int v) (i_dims v) (of_flat (i_shape v) (i_cells v) None).
+  Var (i_name v) (i_dims v) (of_flat (i_shape v) (i_cells v) None).
 Definition to_file (c : case_t) : file := File (c_dims c) (map to_var (c_vars c)).
 
 Definition err_eqb (a b : err) : bool :=
@@ -50,16 +50,13 @@ Definition checkF (c : case_t) : bool :=
 (* the observed result as a model file *)
 Fixpoint obs_vars (vs : list ivar) (os : list (list nat * list cell)) : list var :=
   match vs, os with
-  | v :: t, o :: t' => Var (i_name v) (i_int v) (i_dims v) (of_flat (fst o) (snd o) None) :: obs_vars t t'
+  | v :: t, o :: t' => Var (i_name v) (i_dims v) (of_flat (fst o) (snd o) None) :: obs_vars t t'
   | _, _ => []
   end.
 
 Definition in_domain (c : case_t) : bool :=
   wf_file (to_file c)
   && forallb (fun p => good (snd p) && is_some (lookup (fst p) (c_dims c))) (c_dfs c).
-Definition has_dict (c : case_t) : bool :=
-  existsb (fun p => match snd p with BadDict => true | _ => false end) (c_dfs c).
-
 (* expected new length of a dimension, from the function on arange(n) — independent of the
    coordinate variable *)
 Definition exp_dim (c : case_t) (dn : nat * nat) : nat * nat :=
@@ -70,8 +67,7 @@ Definition exp_dim (c : case_t) (dn : nat * nat) : nat * nat :=
 
 Definition checkS (c : case_t) : bool :=
   match c_obs c with
-  | ORaise _ => negb (in_domain c) && negb (has_dict c)
-      (* an in-domain call must complete; the documented dict form must not raise *)
+  | ORaise _ => negb (in_domain c)      (* an in-domain call must complete *)
   | OFile ds os =>
       if in_domain c then
         let r := File ds (obs_vars (c_vars c) os) in
@@ -82,8 +78,7 @@ Definition checkS (c : case_t) : bool :=
       else true
   end.
 
-Definition region (c : case_t) : nat :=
-  if has_dict c then 2
-  else if existsb (int_mean_var (c_dfs c)) (map to_var (c_vars c)) then 1 else 0.
+(* no known-defect region is left after the repairs *)
+Definition region (c : case_t) : nat := 0.
 
 Definition check (c : case_t) : verdict := (checkF c, checkS c, region c).
